@@ -2,12 +2,30 @@
 """Prints a markdown table of measured cost/reach per property from evidence/*.json."""
 import glob, json, os
 VERIF = os.path.dirname(os.path.dirname(os.path.abspath(__file__)))
-print("| Property | Runs | Distinct non-trivial | CPU s in runs | Runs/hour (16 workers) | Simulated time (s) | Fault kinds fired / injections | Probes hit |")
-print("|---|---|---|---|---|---|---|---|")
+ROWS = []
+ROWS.append("| Property | Runs | Distinct non-trivial | CPU s in runs | Runs/hour (16 workers) | Simulated time (s) | Fault kinds fired / injections | Probes hit |")
+ROWS.append("|---|---|---|---|---|---|---|---|")
 for f in sorted(glob.glob(os.path.join(VERIF, "evidence", "C*.json"))):
     e = json.load(open(f)); c = e["coverage"]
     ff = c.get("faults_fired", {})
     sim = c.get("simulated_seconds", c.get("simulated_time_s", c.get("simulated_ms", 0) / 1000 if c.get("simulated_ms") else ""))
-    print("| %s | %d | %d | %.0f | %d | %s | %d / %d | %d |" % (
+    ROWS.append("| %s | %d | %d | %.0f | %d | %s | %d / %d | %d |" % (
         os.path.basename(f)[:-5], c["evaluations"], c["distinct_nontrivial"], c.get("cpu_seconds_in_runs", 0),
         c.get("runs_per_hour", 0), sim if sim == "" else int(sim), len([k for k, v in ff.items() if v]), sum(ff.values()), len([k for k, v in c.get("probes_hit", {}).items() if v])))
+
+
+def into_design():
+    """Replaces the block between the COST-TABLE markers of DESIGN.md by the current table."""
+    import io, contextlib, runpy
+    p = os.path.join(VERIF, "DESIGN.md")
+    s = open(p).read()
+    a, b = s.index("<!-- COST-TABLE-BEGIN -->"), s.index("<!-- COST-TABLE-END -->")
+    open(p, "w").write(s[:a] + "<!-- COST-TABLE-BEGIN -->\n" + TABLE + s[b:])
+
+
+TABLE = "\n".join(ROWS) + "\n"
+if __name__ == "__main__":
+    import sys
+    print(TABLE)
+    if "--design" in sys.argv:
+        into_design()
